@@ -59,6 +59,8 @@ pub fn pool(ty: Ty) -> Vec<V> {
             Value::String("s".into()),
             Value::String("äb".into()),
             Value::String("a b".into()),
+            // comment markers inside a string literal are text
+            Value::String("p//q /* r */".into()),
         ],
         Ty::Tuple => vec![
             Value::Tuple(vec![Value::Int(1), Value::Int(2)]),
@@ -762,6 +764,10 @@ pub fn gen_setup(rng: &mut Rng) -> Setup {
         if rng.percent(8) {
             vars.push((n.to_string(), any_value_ext(rng)));
         }
+    }
+    if rng.percent(3) {
+        let n = *rng.pick(&crate::env::API_ONLY_NAMES);
+        vars.push((n.to_string(), any_value_ext(rng)));
     }
     let mut fns = Vec::new();
     let all = rng.percent(85);
